@@ -212,6 +212,48 @@ def docrootLine : List String → Option String
           | _ => some "bad-op"
         | none => some "bad-op"
     | _, _, _ => some "bad-op"
+  | "request" :: fl :: sp :: lc :: dr :: rest =>
+    -- request <parseopts> <special> <lc> <docroot> <vhost...> <ndirs> <dirs...> <nalias*2> <k v ...>
+    --         <userdir: ~ | lh basepath path> <nindex> <names...> <nexists> <paths...> <raw host> <target>
+    match fl.toNat?, ofHex dr, parseVhost rest with
+    | some f, some dr, some (vh?, rest) =>
+      match vh? with
+      | none => some "badpat"
+      | some vh =>
+        match takeCounted rest with
+        | some (dirs, rest) =>
+          match takeCounted rest with
+          | some (kv, rest) =>
+            let ud? : Option (Option UserdirCfg × List String) :=
+              match rest with
+              | "~" :: r => some (none, r)
+              | lh :: bp :: up :: r =>
+                (match ofHex bp, ofHex up with
+                 | some bp, some up => some (some ⟨lh == "1", bp, up⟩, r)
+                 | _, _ => none)
+              | _ => none
+            match ud? with
+            | some (ud, rest) =>
+              match takeCounted rest with
+              | some (names, rest) =>
+                match takeCounted rest with
+                | some (ex, [a, t]) =>
+                  (match ofHex a, ofHex t with
+                   | some a, some t =>
+                     if a.head? = some 91 && (Opts.mk f).hostNormalize && sp != "1" then some "skip" else
+                     let cfg : ServeCfg := { lc := lc == "1", docroot := dr, vh := vh, aliases := pairsOf kv,
+                                             userdir := ud, index := names }
+                     some (match serveRequest ⟨f⟩ cfg (fun p => dirs.contains p) (fun p => ex.contains p)
+                                   (sp == "1") a t with
+                           | .answered st => "ans " ++ toString st
+                           | .file p d => "file " ++ toHex p ++ " " ++ toHex d)
+                   | _, _ => some "bad-op")
+                | _ => some "bad-op"
+              | none => some "bad-op"
+            | none => some "bad-op"
+          | none => some "bad-op"
+        | none => some "bad-op"
+    | _, _, _ => some "bad-op"
   | _ => none
 
 def urlLine (toks : List String) : String :=
